@@ -487,6 +487,29 @@ func Generate(r *rand.Rand, profile string, concurrent bool, av Avoid) *Plan {
 		ops = append(ops, frag...)
 		p.Ops = append(ops, p.Ops[at:]...)
 	}
+	// Directed concurrent fragment: two BINDs for the same key in flight on
+	// different channels whose completion callbacks overlap, then keyed calls.
+	if concurrent && (profile == "affinity" || profile == "fallback" || profile == "chaos") && r.IntN(3) == 0 && len(p.Ops) > 4 {
+		k := r.IntN(nKeys)
+		st := func() int { return r.IntN(5) }
+		frag := []Op{
+			{K: OpConn, A: 0, B: ConnProgress}, {K: OpConn, A: 0, B: ConnProgress},
+			{K: OpConn, A: 1, B: ConnProgress}, {K: OpConn, A: 1, B: ConnProgress},
+			{K: OpSteps, A: 60},
+			{K: OpPick, B: MBind, Keys: []int{k}, N: 30},
+			{K: OpPick, B: MBind, Keys: []int{k}, N: 30},
+			{K: OpDone, A: -1, B: OutOK, Keys: []int{k}, N: st()},
+			{K: OpDone, A: -1, B: OutOK, Keys: []int{k}, N: st()},
+			{K: OpPick, B: MBound, Keys: []int{k}, N: st()},
+			{K: OpSteps, A: 40},
+			{K: OpPick, B: MBound, Keys: []int{k}, N: 20},
+			{K: OpPick, B: MBound, Keys: []int{k}, N: 20},
+		}
+		at := 3 + r.IntN(len(p.Ops)-3)
+		ops := append([]Op{}, p.Ops[:at]...)
+		ops = append(ops, frag...)
+		p.Ops = append(ops, p.Ops[at:]...)
+	}
 	for i := range p.Ops {
 		p.Ops[i].ID = i + 1
 	}
